@@ -1,3 +1,5 @@
 import Proofs.Hyperslab
+import Proofs.IterData
+import Proofs.IterDataSim
 import Proofs.Slice
 import Proofs.SliceTuple
